@@ -13,9 +13,9 @@ from checks import scan_common as sc
 CLAIM = {
     "level": "proof",
     "text": "Coq theorems over one model text with a dialect switch (tpl/scanner / XGo scanner): if the XGo run takes no branch tpl/scanner "
-            "lacks or does differently (decidable predicate shared, evaluated by the model: no keyword, c\"/py\" string, '~' '@' '**', no blank "
-            "after a unit, comment sub-scanners agreeing) both dialects return identical tokens and errors (C32_tpl_eq_xgo_on_shared); the "
-            "divergence witnesses (UNIT offset after blanks, '#' comments with \\r or '#*', stripCR inside block comments). The Tpl dialect "
+            "lacks or does differently (decidable predicate shared, evaluated by the model: no keyword, c\"/py\" string, '~' '@' '**', "
+            "comment sub-scanners agreeing) both dialects return identical tokens and errors (C32_tpl_eq_xgo_on_shared); the "
+            "divergence witnesses ('#' comments with \\r or '#*', stripCR inside block comments). The Tpl dialect "
             "is tied to tpl/scanner on every run (exhaustive byte strings, token-level sequences reaching nParen/insertSemi/unit state, "
             "seeded sequences), the real scanners are compared directly, and wherever shared holds they must be identical.",
     "note": "Trusted: Coq kernel, extraction, harness. In the direct comparison 'shared' is decided from the two real outputs (no XGo keyword / "
@@ -33,6 +33,7 @@ SH_STRINGS = [s for s in sc.STRINGS if not (s[:1] in b"cCp")]
 SH_OPS = [o for o in sc.OPERATORS if o not in (b"~", b"@", b"**")]
 SH_COMMENTS = [c for c in sc.COMMENTS if not (c.startswith(b"#") and (b"\r" in c or c.startswith(b"#*"))) and b"*\r/" not in c]
 
+# the first eight are regression cases of the repaired UNIT offset (tpl/scanner skipped blanks while a unit was pending)
 FINDING_SET = [
     b"1m x", b"1m \n", b"2.5s\t+1", b"3ms\r\n", b"1m", b"1m\n", b"1m+2s", b"f(1m ,2)",
     b"#a\r\n", b"#\r", b"# c\r\nx", b"#\r\n", b"#*\n*/", b"#*x", b"#*x*/ y", b"#/x\r\n",
@@ -64,7 +65,7 @@ def shared_sequence(rng):
             glue = None
             wordlike = lx[:1].isalnum() or lx[:1] in (b"_", b".") or lx[0] >= 0x80
             if prev_cls == "number" and wordlike:
-                glue = b"\n" if unit_pending else b" "      # would grow the number / its unit
+                glue = b" "                                  # would grow the number / its unit
             if prev_cls == "ident" and wordlike:
                 glue = b" "                                  # would merge into another identifier (maybe a keyword)
             if prev_cls in ("ident", "number", "odd") and lx[:1] == b'"':
@@ -77,16 +78,12 @@ def shared_sequence(rng):
                 glue = b" "                                  # ".0b2" is the number .0 with the unit b2
             if prev_cls == "number" and prev[-1:] in b"eEpP" and lx[:1] in (b"+", b"-"):
                 glue = b" "
-            if glue and not (unit_pending and glue == b" "):
+            if glue:
                 out += glue
-            elif glue:
-                out += b"\n"
         out += lx
         shape.append(cl[0])
         unit_pending = cl == "number" and lx in UNIT_NUMS
         sep = rng.choice(sc.SEPARATORS)
-        if unit_pending:
-            sep = rng.choice([b"", b"\n", b"\n\n"])          # blanks after a unit: finding-set dimension
         if cl == "comment" and lx.startswith(b"#"):
             sep = b"\n"                                      # anything up to the line end (e.g. a \r) joins the '#' comment
         if cl == "comment" and lx.startswith(b"//") and b"\n" not in sep:
@@ -141,7 +138,7 @@ def run(ctx):
     # the hypothesis of C32_tpl_eq_xgo_on_shared, evaluated by the extracted model
     pidx = [i for i in range(len(cases)) if meta[i][0] != "exhaustive-bytes"]
     pred = dict(zip(pidx, R.run_pred(["x" + cases[i][1:] for i in pidx])))
-    stats = {"compared": 0, "skipped_not_shared": 0, "skipped_unit_blank_dimension": 0, "skipped_sharp_dimension": 0,
+    stats = {"compared": 0, "skipped_not_shared": 0, "skipped_sharp_dimension": 0,
              "skipped_block_cr_dimension": 0, "shared": 0}
     per_group, sh_group, verd = {}, {}, {}
     for i, c in enumerate(cases):
@@ -159,8 +156,6 @@ def run(ctx):
         if how == "always" and fail is None:
             if v == "unshared":
                 stats["skipped_not_shared"] += 1
-            elif name.startswith("exhaustive") and "dim-unit" in dims:
-                stats["skipped_unit_blank_dimension"] += 1
             elif name.startswith("exhaustive") and "dim-sharp" in dims:
                 stats["skipped_sharp_dimension"] += 1
             elif name.startswith("exhaustive") and "dim-blockcr" in dims:
@@ -181,11 +176,11 @@ def run(ctx):
                    "comments, unit numbers as single symbols: state carried across tokens - nParen, insertSemi, pending unit); the deterministic boundary-value family of scan_common.boundary_family (escapes, UTF-8 encodings, digit/radix "
                    "edges, //line numbers); %d seeded "
                    "shared-lexeme sequences (safe generator: non-keyword identifiers, Go literals, unit/rat/imag suffixes, shared operators, "
-                   "// /* */ and # comments, odd bytes; nothing of the finding-set dimensions); %d seeded stateful sequences of 4-12 lexemes; %d "
+                   "// /* */ and # comments, odd bytes; nothing of the finding-set dimensions; blanks after a unit are generated again since the tpl/scanner repair); %d seeded stateful sequences of 4-12 lexemes; %d "
                    "mutated/unshared sequences; the fixed finding set (%d inputs). Every case is a tpl/scanner run (K-diff with the Tpl "
                    "dialect) compared by the harness with the real XGo scanner on the same input: (a) exhaustive / shared-sequence / finding "
-                   "sets: must agree unless an unshared token kind occurs (in the exhaustive sets the three finding-set dimensions - blank "
-                   "after a unit, \\r or '#*' in a # comment, '*\\r' - are skipped and counted); (b) all other sets: must be identical "
+                   "sets: must agree unless an unshared token kind occurs (in the exhaustive sets the two finding-set dimensions - "
+                   "\\r or '#*' in a # comment, '*\\r' - are skipped and counted); (b) all other sets: must be identical "
                    "wherever the model's `shared` holds. distinct = distinct source"
                    % (len(ex), len(alpha), len(core), ctx.n(5, 6), len(wide), len(sc.TOK_WIDE), len(seqs), len(st), len(mal), len(FINDING_SET)),
               exhaustive=True, exhaustive_part=2 * len(ex) + len(core) + 2 * len(wide), compare_stats=stats, compared_per_group=per_group,
